@@ -1,6 +1,7 @@
 package main
 
 import (
+	"bytes"
 	"encoding/json"
 	"flag"
 	"fmt"
@@ -12,6 +13,7 @@ import (
 	"runtime/debug"
 	"runtime/pprof"
 	"sort"
+	"strconv"
 	"strings"
 	"time"
 
@@ -29,6 +31,7 @@ type HarnessSpec struct {
 	Init     []string `json:"init"` // extra packages to initialise eagerly
 	Validate int      `json:"validate"`
 	QueryMs  int      `json:"query_ms"`
+	MaxSeconds int    `json:"max_seconds"`
 }
 
 type Spec struct {
@@ -118,11 +121,18 @@ func fatal(err error) {
 	os.Exit(3)
 }
 
+type concSpec struct {
+	Idx    int
+	Ranged bool
+	Lo, Hi int64
+}
+
 type loaded struct {
 	prog     *ssa.Program
 	pkgs     map[string]*ssa.Package
 	numFuncs int
 	replaces map[string]map[string]string // harness file -> callee -> stub
+	concretize map[string]map[string]concSpec // harness file -> callee -> parameter to concretise
 	fileOf   map[string]string            // harness func -> file
 	allFuncs map[string]*ssa.Function
 	hashes   map[string]string
@@ -130,10 +140,11 @@ type loaded struct {
 	hfiles   map[string][]string // pkg rel dir -> overlay file paths
 }
 
-var replaceRe = regexp.MustCompile(`(?m)^//verif:replace\s+(\S+)\s+=>\s+(\S+)\s*$`)
+var replaceRe = regexp.MustCompile(`(?m)^//verif:(?:replace|wrap)\s+(\S+)\s+=>\s+(\S+)\s*$`)
+var concretizeRe = regexp.MustCompile(`(?m)^//verif:concretize\s+(\S+)\s+(\d+)(?:\s+(-?\d+)\s+(-?\d+))?\s*$`)
 
 func collectOverlay(spec *Spec, pkgSet map[string]bool) (*loaded, []string, error) {
-	ld := &loaded{pkgs: map[string]*ssa.Package{}, replaces: map[string]map[string]string{}, fileOf: map[string]string{}, hashes: map[string]string{}, overlay: map[string][]byte{}, hfiles: map[string][]string{}}
+	ld := &loaded{pkgs: map[string]*ssa.Package{}, replaces: map[string]map[string]string{}, fileOf: map[string]string{}, hashes: map[string]string{}, overlay: map[string][]byte{}, hfiles: map[string][]string{}, concretize: map[string]map[string]concSpec{}}
 	var patterns []string
 	for p := range pkgSet {
 		rel := strings.TrimPrefix(strings.TrimPrefix(p, modPath), "/")
@@ -159,6 +170,18 @@ func collectOverlay(spec *Spec, pkgSet map[string]bool) (*loaded, []string, erro
 				rm[string(m[1])] = string(m[2])
 			}
 			ld.replaces[dst] = rm
+			cm := map[string]concSpec{}
+			for _, m := range concretizeRe.FindAllSubmatch(src, -1) {
+				k, _ := strconv.Atoi(string(m[2]))
+				cs := concSpec{Idx: k}
+				if len(m[3]) > 0 {
+					cs.Ranged = true
+					cs.Lo, _ = strconv.ParseInt(string(m[3]), 10, 64)
+					cs.Hi, _ = strconv.ParseInt(string(m[4]), 10, 64)
+				}
+				cm[string(m[1])] = cs
+			}
+			ld.concretize[dst] = cm
 		}
 		if pkgName == "" {
 			return nil, nil, fmt.Errorf("no harness files for package %s in %s", p, hdir)
@@ -282,6 +305,22 @@ func runHarness(ld *loaded, spec *Spec, hs HarnessSpec, trace bool) *HarnessResu
 			replace[target.String()] = sf
 		}
 	}
+	concParams := map[string]concSpec{}
+	if file, ok := ld.fileOf[hs.Pkg+"."+hs.Func]; ok {
+		for callee, idx := range ld.concretize[file] {
+			found := false
+			for name, f := range ld.allFuncs {
+				if name == callee || f.RelString(pkg.Pkg) == callee {
+					concParams[f.String()] = idx
+					found = true
+				}
+			}
+			if !found {
+				res.Inconclusive = append(res.Inconclusive, "concretize directive unresolved: "+callee)
+				return res
+			}
+		}
+	}
 	// base: initialise the harness package and requested extras
 	initPkgs := []*ssa.Package{pkg}
 	for _, ip := range hs.Init {
@@ -290,7 +329,10 @@ func runHarness(ld *loaded, spec *Spec, hs HarnessSpec, trace bool) *HarnessResu
 		}
 	}
 	base, initErrs := buildBase(ld.prog, initPkgs, cfg)
-	ex := &Explorer{prog: ld.prog, base: base, fn: fn, cfg: cfg, replace: replace}
+	ex := &Explorer{prog: ld.prog, base: base, fn: fn, cfg: cfg, replace: replace, maxSeconds: hs.MaxSeconds, concParams: concParams}
+	if ex.maxSeconds == 0 {
+		ex.maxSeconds = 900
+	}
 	r := ex.Run(spec.Workers, maxPaths)
 	r.Pkg, r.Func = hs.Pkg, hs.Func
 	r.InitErrors = initErrs
@@ -306,7 +348,11 @@ func runHarness(ld *loaded, spec *Spec, hs HarnessSpec, trace bool) *HarnessResu
 		r.Witness = fmt.Sprintf("%d completed feasible paths; cover points reached: %v", r.PathsOK, r.Covers)
 	}
 	// replay every counterexample against the natively compiled real code
-	if !spec.NoNative && len(replace) == 0 {
+	hasEnvReplace := false
+	if file, ok := ld.fileOf[hs.Pkg+"."+hs.Func]; ok {
+		hasEnvReplace = bytes.Contains(ld.overlay[file], []byte("//verif:replace"))
+	}
+	if !spec.NoNative && !hasEnvReplace {
 		for i := range r.Violations {
 			v := &r.Violations[i]
 			if i >= 5 {
@@ -322,7 +368,7 @@ func runHarness(ld *loaded, spec *Spec, hs HarnessSpec, trace bool) *HarnessResu
 			r.Violations[i].ReplayNote = "harness uses environment replacements: replay is through the public-API scenario"
 		}
 	}
-	if hs.Validate > 0 && !spec.NoNative && len(replace) == 0 {
+	if hs.Validate > 0 && !spec.NoNative && !hasEnvReplace {
 		r.Validation = validate(ld, spec, hs, base, fn, cfg, replace)
 		if r.Validation.Mismatches > 0 || r.Validation.Error != "" {
 			r.Inconclusive = append(r.Inconclusive, "translator validation failed: "+r.Validation.Error+" "+strings.Join(r.Validation.Samples, " | "))
@@ -365,6 +411,7 @@ func vObserveBool(tag string, v bool)  { panic("verif intrinsic") }
 func vObserveBytes(tag string, v []byte) { panic("verif intrinsic") }
 func vTry(f func()) bool               { panic("verif intrinsic") }
 func vOverlap(a, b []byte) bool        { panic("verif intrinsic") }
+func vLearnBits(x uint64, w int)       { panic("verif intrinsic") }
 `
 
 func replayDir(spec *Spec) string {
